@@ -284,6 +284,59 @@ def stdin_open_exit(part, binpath, open_ids):
             r.kill()
 
 
+def stalled_reader(part, binpath, rng, nruns):
+    """a client that pipelines requests with large answers (more than the 64 KiB a pipe holds), ends the session, and only then -
+    after a pause - starts to read: every request must still be answered, in order, before the process ends"""
+    filler = "".join("proc filler%d(a: int, ref b: int) {\n    var c: int;\n    c := a * %d + b;\n    if (c < a) { b := c; } else { b := a; }\n}\n" % (j, j) for j in range(400)) + "proc main() {}\n"
+    for it in range(nruns):
+        end = rng.choice(["exit", "shutdown+exit", "eof", "shutdown+eof"]); stall = rng.choice([0.2, 1.3, 2.5]); nreq = rng.choice([3, 8, 20])
+        msgs = [msg("initialize", 1), msg("initialized", 2), {"jsonrpc": "2.0", "method": "textDocument/didOpen", "params": {"textDocument": {"uri": URI, "languageId": "spl", "version": 0, "text": filler}}}]
+        ids = [1]
+        for i in range(nreq):
+            rid = 10 + i; ids.append(rid)
+            m = rng.choice(["textDocument/semanticTokens/full", "textDocument/semanticTokens/full", "textDocument/foldingRange", "textDocument/formatting"])
+            p = {"textDocument": {"uri": URI}}
+            if m.endswith("formatting"): p["options"] = {"tabSize": 8, "insertSpaces": True}
+            msgs.append({"jsonrpc": "2.0", "id": rid, "method": m, "params": p})
+        if end.startswith("shutdown"): msgs.append({"jsonrpc": "2.0", "id": 99, "method": "shutdown"}); ids.append(99)
+        if end.endswith("exit"): msgs.append({"jsonrpc": "2.0", "method": "exit"})
+        erc = 1 if end == "exit" else 0 if end == "shutdown+exit" else None
+        sc = {"kind": "stalled-reader", "end": end, "stall": stall, "requests": nreq}
+        r = Run(binpath)
+        try:
+            os.set_blocking(r.p.stdin.fileno(), False)
+            data = b"".join(frame(m) for m in msgs); view = memoryview(data); t0 = time.monotonic()
+            while view and time.monotonic() - t0 < 30:
+                try: view = view[os.write(r.p.stdin.fileno(), view):]
+                except BlockingIOError: time.sleep(0.01)          # the server stopped reading because nobody reads its output: wait, do not read
+                except (BrokenPipeError, OSError): break
+                if stall and time.monotonic() - t0 > stall: break  # (the rest is written while reading, below)
+            time.sleep(max(0.0, stall - (time.monotonic() - t0)))
+            t1 = time.monotonic()
+            while view and time.monotonic() - t1 < 60:
+                try: view = view[os.write(r.p.stdin.fileno(), view):]
+                except BlockingIOError: r.pump(0.01)
+                except (BrokenPipeError, OSError): break
+            os.set_blocking(r.p.stdin.fileno(), True)
+            res = r.finish(close_stdin=True, limit=30.0); part.ev()
+            got = [g[0] for g in responses(r.msgs)]
+            if res[0] == "busy": part["inconclusive"].append("stalled reader: %s" % res[1]); continue
+            if res[0] == "hang": part.fail("stalled reader (%s, reading starts after %.1f s): %s" % (end, stall, res[1]), sc); continue
+            if got != ids or r.torn:
+                part.fail("a client that starts reading %.1f s after pipelining %d requests with large answers and %s gets responses %r%s, expected one per request in order %r"
+                          % (stall, nreq, end, got, " + torn frame" if r.torn else "", ids), sc); continue
+            if (erc is not None and res[1] != erc) or (erc is None and res[1] not in (0, 1)): part.fail("stalled reader (%s): exit status %r" % (end, res[1]), sc); continue
+            part.see(("stalled-reader", end, stall > 1, nreq)); part.cnt("stalled_reader_runs")
+        finally:
+            r.kill()
+
+
+def worker_stalled(args):
+    seed, n = args
+    part = Part(); stalled_reader(part, server_bin("rel"), random.Random("C18/stalled/%s" % seed), n)
+    return part
+
+
 def run(ctx):
     binpath = server_bin("rel")
     open_ids = set(f["id"] for f in ctx.open_findings())
@@ -310,6 +363,7 @@ def run(ctx):
     ns = 2 if ctx.quick else len(SESSIONS)
     for p in pmap(worker_prefix, [(si, sh, 8, open_ids) for si in range(ns) for sh in range(8)]): ctx.merge(p)
     part = Part(); stdin_open_exit(part, binpath, open_ids); ctx.merge(part)
+    for p in pmap(worker_stalled, [("%s/%d" % (ctx.seed, i), 2 if ctx.quick else 25) for i in range(NCPU)]): ctx.merge(p)
     c = ctx.extra.get("counters", {})
     ctx.extra["exhaustive_part"] = {"alphabet": ALPHA, "complete_up_to_length": sample[0], "sampled_fraction_beyond": sample[1], "max_length": maxlen,
                                     "sessions_lock_step": c.get("sessions_lock-step"), "sessions_pipelined": c.get("sessions_pipelined")}
@@ -329,6 +383,7 @@ def replay(ctx, sc):
     open_ids = set(f["id"] for f in ctx.open_findings())
     if sc["kind"] == "sequence": check_session(part, binpath, tuple(sc["sequence"]), sc["schedule"], open_ids, sc.get("variant", 0), sc.get("env"))
     elif sc["kind"] == "stdin-open": stdin_open_exit(part, binpath, open_ids)
+    elif sc["kind"] == "stalled-reader": stalled_reader(part, binpath, random.Random("replay"), 12)
     else:
         seq = tuple(sc["session"]); global SESSIONS
         SESSIONS = SESSIONS + [seq]
